@@ -5,6 +5,8 @@
 //! lifecycle owner-create-drop <cfg>        create a node, print `created <id>`, drop it, print `dropped`
 //! lifecycle owner-create <cfg>             create a node, print `created <id>`, then obey stdin lines:
 //!                                            `drop` (orderly drop, prints `dropped`, exits), `exit` (_exit, no drop)
+//! lifecycle owner-port <cfg>               create a node, a publish-subscribe service and a publisher (service tag + port tag), print
+//!                                            `created <id>`, then _exit without running any destructor
 //! lifecycle monitor <cfg> [<id>]           `list <id>:<NodeState>…` of Node::list; with <id>: `raw <ProcessState> cal <State>`
 //! lifecycle clean <cfg>                    Node::list + try_remove_stale_resources of every dead node: `clean <id>:<result>…`
 //! lifecycle cleaner <cfg> <id> [hold|abandon]   cal-level cleaner acquisition of one node: `cleaner <result>`;
@@ -92,6 +94,15 @@ fn main() {
                 }
                 Err(e) => out(&format!("err:{e:?}")),
             }
+        }
+        "owner-port" => {
+            let node = NodeBuilder::new().config(config).create::<ipc::Service>().expect("node");
+            let name = ServiceName::new("verif/lifecycle/port").unwrap();
+            let service = node.service_builder(&name).publish_subscribe::<u64>().open_or_create().expect("service");
+            let publisher = service.publisher_builder().create().expect("publisher");
+            out(&format!("created {}", node.id().value()));
+            let _keep = (&publisher, &service);
+            unsafe { libc_exit() };
         }
         "monitor" => {
             let mut states = vec![];
